@@ -118,6 +118,23 @@ def replay_channel(ck, prop, path):
             inv, bad.get("a"), bad.get("p")), files={"trace.ndjson": trace}, text=v["cex"])
 
 
+def fixture_overlay(ck):
+    """A copy of lnwallet/test_utils.go in which script-enforced lease fixtures get a real lease expiry
+    (ThawHeight = 600, written by the fixture's own SyncPending). The stock fixture leaves it 0, which makes
+    `<0> CLTV` trivially true and hides every defect around the lease expiry. /repo is not touched."""
+    import re
+    src = open(os.path.join(core.REPO, "lnwallet", "test_utils.go")).read()
+    pat = "\t\tChanType:                chanType,\n"
+    if src.count(pat) != 2 or "verifLeaseExpiry" in src:
+        raise Inconclusive("lnwallet/test_utils.go no longer has the shape the lease-expiry overlay expects")
+    src = src.replace(pat, pat + "\t\tThawHeight:              verifLeaseExpiry(chanType),\n")
+    src += ("\n// verifLeaseExpiry gives lease fixtures a real lease expiry (injected by /verif through an overlay).\n"
+            "func verifLeaseExpiry(t channeldb.ChannelType) uint32 {\n\tif t.HasLeaseExpiration() {\n\t\treturn 600\n\t}\n\n\treturn 0\n}\n")
+    dst = os.path.join(ck.out, "test_utils_lease.go")
+    open(dst, "w").write(src)
+    return {"lnwallet/test_utils.go": dst}
+
+
 def run_channel(ck, prop, extra_overlay=None):
     prof = PROFILE[prop]
     tier = ck.tier
@@ -141,7 +158,7 @@ def run_channel(ck, prop, extra_overlay=None):
     res = ck.go_test("./lnwallet/", "^TestVerifChannelExec$", ["lnwallet/channel_exec_test.go"],
                      env={"VERIF_SCHED": os.path.dirname(files[0]), "VERIF_TYPES": prof.get("types", ALL_TYPES),
                           "VERIF_SHADOW_EVERY": prof["shadow"]},
-                     timeout=3000, extra_overlay=extra_overlay)
+                     timeout=3000, extra_overlay=dict(fixture_overlay(ck), **(extra_overlay or {})))
     trace = os.path.join(res["dir"], "trace.ndjson")
     if not os.path.exists(trace) or os.path.getsize(trace) == 0:
         raise Inconclusive("executor produced no trace:\n" + res["out"][-3000:])
